@@ -11,7 +11,7 @@
 EXTENDS Naturals, Sequences, FiniteSets, TypeExpr
 
 \* ---- renderings ----------------------------------------------------------
-Rendering(fmt, order, builtins, introTypes, roots, fold, sparse) ==
+Rendering(fmt, order, builtins, introTypes, roots, fold, sparse, docs) ==
   [fmt |-> fmt,              \* "sdl" | "json" | "wrapped" ({"data": {"__schema": ..}})
    order |-> order,          \* "decl" | "reversed" | "rotated"   order of the type definitions
    builtins |-> builtins,    \* built-in scalars declared / listed explicitly
@@ -19,15 +19,17 @@ Rendering(fmt, order, builtins, introTypes, roots, fold, sparse) ==
    roots |-> roots,          \* "explicit" (schema block, custom names) | "default" (no block, Query/Mutation/
                              \* Subscription) | "defaultExplicit" (those names, but listed in a schema block)
    fold |-> fold,            \* SDL: `extend type` blocks folded into the type or kept separate
-   sparse |-> sparse]        \* JSON: null members omitted
+   sparse |-> sparse,        \* JSON: null members omitted
+   docs |-> docs]            \* everything the generator must ignore is present: descriptions, comments,
+                             \* a custom directive (definition and applications), specifiedByURL, isRepeatable
 
 Formats == {"sdl", "json", "wrapped"}
 Orders  == {"decl", "reversed", "rotated"}
 
 Renderings ==
-  {Rendering(f, o, b, i, r, fo, sp) :
+  {Rendering(f, o, b, i, r, fo, sp, d) :
       f \in Formats, o \in Orders, b \in BOOLEAN, i \in BOOLEAN, r \in {"explicit", "default", "defaultExplicit"},
-      fo \in BOOLEAN, sp \in BOOLEAN}
+      fo \in BOOLEAN, sp \in BOOLEAN, d \in BOOLEAN}
 
 \* options that do not apply to a format are fixed (canonical representative)
 WellFormedRendering(r) ==
@@ -35,7 +37,7 @@ WellFormedRendering(r) ==
   /\ (r.fmt # "sdl" => r.fold)
 
 \* the base rendering every other one is compared with
-Reference == Rendering("sdl", "decl", FALSE, FALSE, "explicit", TRUE, FALSE)
+Reference == Rendering("sdl", "decl", FALSE, FALSE, "explicit", TRUE, FALSE, FALSE)
 
 SameOrder(a, b) == a.order = b.order
 \* root naming is part of the schema's identity for names, so it is compared like with like
